@@ -2,14 +2,16 @@ module verifharness
 
 go 1.22
 
-require github.com/tsenart/vegeta/v12 v12.0.0
+require (
+	github.com/tsenart/vegeta/v12 v12.0.0
+	golang.org/x/net v0.27.0
+)
 
 require (
 	github.com/influxdata/tdigest v0.0.1 // indirect
 	github.com/josharian/intern v1.0.0 // indirect
 	github.com/mailru/easyjson v0.7.7 // indirect
 	github.com/rs/dnscache v0.0.0-20230804202142-fc85eb664529 // indirect
-	golang.org/x/net v0.27.0 // indirect
 	golang.org/x/sync v0.7.0 // indirect
 	golang.org/x/text v0.16.0 // indirect
 )
